@@ -705,3 +705,15 @@ Example reject_nonvacuous : len_ok 16 (ex_msg 17) = false /\
   call_valid 16 CFB CFB all_ptrs {| s_iv := []; s_off := 16; s_sb := [] |} [] = false /\
   call_valid 8 CTR CTR all_ptrs (ex_st 8) (ex_msg 5) = true.
 Proof. vm_compute. auto. Qed.
+
+Theorem des_stream_any_partition_api : forall c fn s c0 chunks,
+  stream_mode fn = true -> d_mode c = fn -> op_valid (d_op c) = true -> st_ok 8 s ->
+  run_calls (des_call fn all_ptrs c) s (c0 :: chunks) = one_call (des_call fn all_ptrs c) s (concat (c0 :: chunks))
+  /\ accepted (one_call (des_call fn all_ptrs c) s (concat (c0 :: chunks))).
+Proof. intros c fn s c0 chunks H <- . exact (d_stream_any_partition (des_blk c) (d_op c) (d_mode c) s c0 chunks H). Qed.
+
+Theorem tdes_stream_any_partition_api : forall c fn s c0 chunks,
+  stream_mode fn = true -> t_mode c = fn -> op_valid (t_op c) = true -> st_ok 8 s ->
+  run_calls (tdes_call fn all_ptrs c) s (c0 :: chunks) = one_call (tdes_call fn all_ptrs c) s (concat (c0 :: chunks))
+  /\ accepted (one_call (tdes_call fn all_ptrs c) s (concat (c0 :: chunks))).
+Proof. intros c fn s c0 chunks H <- . exact (d_stream_any_partition (tdes_blk c) (t_op c) (t_mode c) s c0 chunks H). Qed.
